@@ -287,9 +287,10 @@ def meta_case(ctx, r):
     elif k == 'anm-img' and r.chance(0.12):
         # a header field that this version of the format has no room for: a non-zero request cannot be stored, so it must be refused
         game = r.pick(ANM_GAMES); new = L.ANM_VERSION[game] >= 7
-        f = 'colorkey' if new else r.pick(['offset_x', 'offset_y', 'low_res_scale'])
+        f = r.pick(['colorkey', 'path_2']) if new else r.pick(['offset_x', 'offset_y', 'low_res_scale'])
         v = r.pick([0, 1, 5, 255]) if f != 'low_res_scale' else r.pick([0, 1])
-        text = anm_entry(game, **{f: ('true' if v else 'false') if f == 'low_res_scale' else str(v)}) + 'script s0 { }\n'
+        if f == 'path_2': v = 1      # (a second path: old headers have an offset field for it, new headers do not)
+        text = anm_entry(game, **{f: '"b.png"' if f == 'path_2' else ('true' if v else 'false') if f == 'low_res_scale' else str(v)}) + 'script s0 { }\n'
         field = 'anm.%s:%s:absent-field' % (f, 'v7+' if new else 'v0-4')
         replay = {'field': field, 'game': game, 'text': text}
         res = compile_and_parse(ctx, 'anm', game, text, None, L.parse_anm, replay)
